@@ -56,6 +56,8 @@ def make_case(rng, i):
     listeners = [p for p in spec["providers"] if p not in ("sm", "model")]
     spec["eq_listeners"] = rng.choice([False, False, False, False, False, True, True, "unhashable"])
     spec["falsy_listeners"] = rng.choice([None, None, None, None, "len", "bool"])
+    if rng.random() < 0.12:
+        spec["model_shape"] = "libmodel"     # the domain model is a subclass of statemachine.model.Model
     # multi-provider guards / validators
     others = [p for p in spec["providers"] if p != "sm"]
     unless_names = {g["name"] for t in spec["transitions"] for g in t["guards"] if g["kind"] == "unless"}
